@@ -190,7 +190,11 @@ func runC15(c *Ctx, phase string) {
 	c.Floor("prefixes_with_or_later_plus", 500)
 	c.Floor("message_expected_id", 500)
 
-	bads := []string{"FOO", "Unknown-2.0", "LicenseRef-", "DocumentRef-", "LicenseRef-!x", "DocumentRef-:LicenseRef-a", "!", "#", "\t", "é", "日", "\x00", "_", "GPL-9.9-or-later", "mit-or-latr", "LicenseRef- x"}
+	bads := []string{"FOO", "Unknown-2.0", "LicenseRef-", "DocumentRef-", "LicenseRef-!x", "DocumentRef-:LicenseRef-a", "!", "#", "\t", "é", "日", "\x00", "_", "GPL-9.9-or-later", "mit-or-latr", "LicenseRef- x",
+		// hostile unknown ids: suffixes / prefixes in the wrong letter case (the suffix and prefix rules are case-sensitive), so the
+		// scanner's normalisation code runs on them before they are reported
+		"FOO-2.0-OR-LATER", "Foo-1-Only", "BAR-Or-Later", "MIT-ONLY", "Apache-2.0-OR-LATER", "apache-2.0-Or-Later", "licenseref-x", "LICENSEREF-x",
+		"documentref-a", "Gpl-9.9", "GPL-2.0-ONLY-only-x", "x-only", "y-or-later", "-or-later", "-only", "Z-only-or-later"}
 	for i := 0; i < n; i++ {
 		if !c.Mine(i) {
 			continue
